@@ -899,6 +899,8 @@ func lemmaTypedGettersAgreeOnFound(st *SlimTrie, key string) (bool, bool, bool, 
 //@   property C08 C12 C13
 //@   opt kinds=pre(addInner),pre(build),post
 //@   ensures result1 == nil && len(keys) > 0 ==> wf_shape(result0)
+//@   ensures result1 == nil ==> result0 != nil
+//@   ensures result1 != nil ==> result0 == nil
 //@   requires opt != nil && opt.InnerPrefix != nil && opt.DedupValue != nil && opt.LeafPrefix != nil
 //@   requires len(keys) <= 100000000 && (bytesValues == nil || len(bytesValues) == len(keys))
 //@   loop 2 invariant c != nil && c.option == opt && opt.InnerPrefix != nil
@@ -1017,6 +1019,24 @@ func lemmaTypedGettersAgreeOnFound(st *SlimTrie, key string) (bool, bool, bool, 
 // the precondition of addInner at this call site — it needs a quantified invariant over the queue of heap-allocated
 // elements that the solvers do not carry through the nested loops (the step bound itself is getStepBefore000510's
 // postcondition; the path is bounded-checked by D-legacy and D-legacy-emul3 with steps up to 65534 words).
+// NewSlimTrie: all-or-nothing at the API (C08) and the shape of what it returns: either an error and no trie, or a fresh
+// SlimTrie whose encoder is the caller's, whose inner Slim has the builder's shape (wf_shape, for a non-empty key list) and
+// whose cached layout constants are the ones wf_core relies on (initVars). The encoding of the caller's values goes through
+// reflection (assumed frame: fresh [][]byte of len(keys) elements, or nil for nil values).
+//@ func encodeValues
+//@   property C08
+//@   assume-dep reflection over the caller's value slice (reflect.ValueOf / Index / Interface) and the Encoder interface: reads the values, returns a fresh [][]byte with one element per key, nil for nil values; its frame is decided by framecheck (C20)
+//@   allocates
+//@   ensures values == nil ==> result == nil
+//@   ensures values != nil ==> len(result) == n
+//@ func NewSlimTrie
+//@   property C08 C01
+//@   opt kinds=post,pre(newSlim),pre(normalizeOpt),pre(init)
+//@   requires len(keys) <= 100000000
+//@   ensures result1 != nil ==> result0 == nil
+//@   ensures result1 == nil ==> result0 != nil && fresh(result0) && result0.inner != nil && result0.encoder == e && result0.vars != nil
+//@   ensures result1 == nil && len(keys) > 0 ==> wf_shape(result0.inner)
+
 //@ func normalizeOpt
 //@   property C06 C08
 //@   opt kinds=post
